@@ -194,3 +194,58 @@ def gen_eof_plan(rng, sc):
     acts.sort(key=lambda x: x[0])
     it.acts = acts
     return p
+
+
+def gen_buffer_plan(rng, sc):
+    """histories over create/scan_*/switch/push/pop/flush/delete/yylex, from
+    top level, from inside actions, from <<EOF>> actions and from yywrap"""
+    p = Plan()
+    p.junk_seed = rng.randint(1, 1 << 30)
+    p.junk_pat = rng.choice([0, 1, 2, 3, 4])
+    deep = rng.random() < 0.2
+    nsrc = rng.randint(12, 30) if deep else rng.randint(3, 9)
+    for _ in range(nsrc):
+        ln = rng.choice([0, 1, 2, 3, 5, 8, 13, 30])
+        p.sources.append(Source(gen_input(rng, sc.alphabet, ln, stray=0.02), gen_sched(rng)))
+    it = p.insts[0]
+    it.top.append(Op('INIT', a=rng.randint(0, 1)))
+
+    def bufop(ctx):
+        k = rng.choice(['CREATE_BUF', 'SWITCH', 'PUSH_BUF', 'PUSHNEW', 'SWITCHNEW', 'POP_BUF', 'FLUSH', 'DELETE',
+                        'SCAN_BYTES', 'SCAN_STRING', 'SCAN_BUFFER', 'PUSHNEW', 'SWITCH', 'POP_BUF'])
+        if k in ('SCAN_BYTES', 'SCAN_STRING', 'SCAN_BUFFER'):
+            alpha = sc.alphabet if k != 'SCAN_STRING' else ([c for c in sc.alphabet if c] or [97])
+            d = gen_input(rng, alpha, rng.choice([0, 1, 2, 5, 12]), stray=0.0 if k == 'SCAN_STRING' else 0.02)
+            a = 0
+            if k == 'SCAN_BUFFER' and rng.random() < 0.25:
+                a = rng.choice([1, 2, 3])
+            return Op(k, a=a, d=d)
+        if k in ('CREATE_BUF', 'PUSHNEW', 'SWITCHNEW'):
+            return Op(k, a=rng.choice([1, 2, 3, 4, 8, 16, 17, 64, 16384]))
+        return Op(k, a=rng.randint(0, 9))
+
+    for _ in range(rng.randint(0, 3)):
+        it.top.append(bufop('top'))
+    for _ in range(rng.randint(2, 8)):
+        it.top.append(Op('LEX', a=rng.choice([1, 2, 3, 5, 20, 5000])))
+        for _ in range(rng.randint(0, 2)):
+            it.top.append(bufop('top'))
+        if rng.random() < 0.15:
+            it.top.append(Op('SETBOL', a=rng.randint(0, 1)))
+        if sc.flavor != 'nr' and rng.random() < 0.15:
+            it.top.append(Op(rng.choice(['GET_LINENO', 'SET_LINENO']), a=rng.choice([1, 5, 77])))
+    it.top.append(Op('LEX', a=5000))
+    it.top.append(Op('DESTROY'))
+    acts = []
+    for o in range(100):
+        r = rng.random()
+        if r < (0.5 if deep else 0.25):
+            acts.append((o, Op('PUSHNEW', a=rng.choice([1, 3, 16, 64])) if deep and rng.random() < 0.7 else bufop('act')))
+        elif r < 0.35:
+            acts.append((o, Op('RETURN', a=rng.randint(0, 3))))
+        elif r < 0.4:
+            acts.append((o, Op(rng.choice(['LESS', 'INPUT', 'UNPUT', 'BEGIN']), a=rng.choice(sc.alphabet) if rng.random() < 0.5 else rng.randint(0, 5))))
+    it.acts = acts
+    for _ in range(rng.randint(0, 12)):
+        it.wraps.append(Op(rng.choice(['POP_BUF', 'POP_BUF', 'POP_BUF', 'SWITCH', 'SET_YYIN', 'STOP', 'SWITCHNEW']), a=rng.randint(0, 9)))
+    return p
